@@ -269,6 +269,11 @@ impl ShmReader {
             // SAFETY: `ceb_at` has been checked to be valid while creating the ShmReader
             let snapshot = unsafe { self.ceb_shm.read_volatile() };
 
+            // An acquire load only orders the accesses that follow it. Without this fence, the
+            // read of the record above may be satisfied after the generation is read again, and an
+            // unchanged generation number would not prove the record was read consistently.
+            atomic::fence(atomic::Ordering::Acquire);
+
             // Confirm no update occurred during the read
             let second_gen = generation.load(atomic::Ordering::Acquire);
             if first_gen == second_gen {
